@@ -35,10 +35,15 @@ type Options struct {
 	// Mnemonics, if given, override the derived ones (recorded ceremonies).
 	Mnemonics []string
 	WorkRoot  string // default $VERIF_WORK or /verif/work
+	// ViaHTTP: the operator driver reaches the nodes through the repository's REST API (router,
+	// binding, validation, DTO conversion, handlers) instead of calling the node service directly.
+	ViaHTTP bool
 }
 
 type World struct {
-	Opt   Options
+	// MachinePanics counts operations on which an airgapped machine panicked (see ColdResult).
+	MachinePanics int
+	Opt           Options
 	Dir   string
 	Board *MemBoard
 	Nodes []*Node
@@ -89,7 +94,7 @@ func NewWorld(opt Options) (*World, error) {
 		if opt.NoCold && !opt.UseLevelDB {
 			dir = ""
 		}
-		n, err := NewNode(i, name, opt.Seed, w.Board, NodeOpts{UseLevelDB: opt.UseLevelDB, Dir: dir, CommSeed: opt.CommSeed, Mnemonic: mnemonicAt(opt.Mnemonics, i)})
+		n, err := NewNode(i, name, opt.Seed, w.Board, NodeOpts{UseLevelDB: opt.UseLevelDB, Dir: dir, CommSeed: opt.CommSeed, Mnemonic: mnemonicAt(opt.Mnemonics, i), ViaHTTP: opt.ViaHTTP})
 		if err != nil {
 			w.Close()
 			return nil, err
@@ -146,7 +151,11 @@ func (w *World) InitPayload(t int, createdAt time.Time, nodes ...*Node) []byte {
 // StartDKG lets node `by` post the opening proposal through the real API path; returns round id.
 func (w *World) StartDKG(by int, t int, createdAt time.Time, nodes ...*Node) (string, error) {
 	payload := w.InitPayload(t, createdAt, nodes...)
-	if err := w.Nodes[by].Svc.StartDKG(&dto.StartDkgDTO{Payload: payload}); err != nil {
+	if api := w.Nodes[by].API; api != nil {
+		if err := api.StartDKG(payload); err != nil {
+			return "", err
+		}
+	} else if err := w.Nodes[by].Svc.StartDKG(&dto.StartDkgDTO{Payload: payload}); err != nil {
 		return "", err
 	}
 	id := sha256.Sum256(payload)
@@ -156,6 +165,9 @@ func (w *World) StartDKG(by int, t int, createdAt time.Time, nodes ...*Node) (st
 // PendingOps returns node n's pending operations in a deterministic order.
 func (w *World) PendingOps(n *Node) []*types.Operation {
 	ops, err := n.Ops.GetOperations()
+	if n.API != nil {
+		ops, err = n.API.Operations()
+	}
 	if err != nil {
 		return nil
 	}
@@ -187,7 +199,27 @@ func JSONRoundTrip(o *types.Operation) (*types.Operation, error) {
 
 // ColdResult feeds op to the node's machine through JSON (as the operator would) and returns the
 // result operation. storeLog=true goes through ProcessOperation (operation log + result file).
-func (w *World) ColdResult(n *Node, op *types.Operation, storeLog bool) (*types.Operation, error) {
+func (w *World) ColdResult(n *Node, op *types.Operation, storeLog bool) (res *types.Operation, err error) {
+	// a panic inside the machine is the machine's process dying: the operator gets no result
+	defer func() {
+		if r := recover(); r != nil {
+			w.MachinePanics++
+			res, err = nil, &MachinePanic{Node: n.Name, OpType: string(op.Type), Value: fmt.Sprint(r)}
+		}
+	}()
+	return w.coldResult(n, op, storeLog)
+}
+
+// MachinePanic is returned by ColdResult when the airgapped machine panicked while handling op.
+type MachinePanic struct {
+	Node, OpType, Value string
+}
+
+func (e *MachinePanic) Error() string {
+	return fmt.Sprintf("the airgapped machine of %s panicked on %s: %s", e.Node, e.OpType, e.Value)
+}
+
+func (w *World) coldResult(n *Node, op *types.Operation, storeLog bool) (*types.Operation, error) {
 	in, err := JSONRoundTrip(op)
 	if err != nil {
 		return nil, err
@@ -229,6 +261,9 @@ var UseOpLog = false
 func (w *World) HandleOp(n *Node, op *types.Operation) error {
 	if fsm.State(op.Type) == spf.StateAwaitParticipantsConfirmations {
 		w.tracef("%s approve %s", n.Name, op.ID[:6])
+		if n.API != nil {
+			return n.API.Approve(op.ID)
+		}
 		return n.Svc.ApproveParticipation(&dto.OperationIdDTO{OperationID: op.ID})
 	}
 	var res *types.Operation
@@ -263,6 +298,13 @@ func (w *World) HandleOp(n *Node, op *types.Operation) error {
 		n.ResultCache[op.ID] = bz
 	}
 	w.tracef("%s submit %s %s -> %s", n.Name, op.Type, op.ID[:6], res.Event)
+	if n.API != nil {
+		bz, err := json.Marshal(res) // the result file the machine wrote, uploaded as it is
+		if err != nil {
+			return err
+		}
+		return n.API.Submit(bz)
+	}
 	return n.Svc.ProcessOperation(OpToDTO(res))
 }
 
@@ -397,6 +439,12 @@ func (w *World) ProposeSign(by int, roundID string, data map[string][]byte, rng 
 	id, err := hex.DecodeString(roundID)
 	if err != nil {
 		return err
+	}
+	if api := w.Nodes[by].API; api != nil && (rng == nil || len(data) == 0) {
+		if rng != nil {
+			return api.ProposeBaked(id, rng.Start, rng.End)
+		}
+		return api.ProposeBatch(id, data)
 	}
 	return w.Nodes[by].Svc.ProposeSignMessages(&dto.ProposeSignBatchMessagesDTO{DkgID: id, Data: data, Range: rng})
 }
